@@ -28,6 +28,17 @@ SHARDS = {"quick": 8, "thorough": 16}
 
 
 def run_case(case):
+    from ..refterm import StreamExhausted
+
+    try:
+        return _run_case(case)
+    except StreamExhausted as e:
+        res = Res()
+        res.viol("blocks_reading_a_report_the_terminal_never_sent", detail=str(e), case=case)
+        return res
+
+
+def _run_case(case):
     from curtsies.window import CursorAwareWindow
 
     res = Res()
